@@ -398,6 +398,38 @@ pub(super) fn verify_recipient_metadata<'a, T: secp256k1::Signing>(
 	verify_metadata(metadata, Hmac::from_engine(hmac), signing_pubkey, secp_ctx)
 }
 
+/// Verification-harness accessor: [`verify_recipient_metadata`] (`payer == false`) or
+/// [`verify_payer_metadata_inner`] (`payer == true`) over all records of `tlv_bytes`; returns the
+/// derived secret key bytes when keys were derived.
+#[cfg(feature = "verif_hooks")]
+pub(crate) fn verif_verify_metadata(
+	payer: bool, metadata: &[u8], expanded_key: &ExpandedKey, iv_bytes: &[u8; IV_LEN],
+	signing_pubkey: PublicKey, tlv_bytes: &[u8],
+) -> Result<Option<[u8; 32]>, ()> {
+	let secp_ctx = Secp256k1::new();
+	let tlv_stream = crate::offers::merkle::TlvStream::new(tlv_bytes);
+	let keys = if payer {
+		verify_payer_metadata_inner(
+			metadata,
+			expanded_key,
+			iv_bytes,
+			signing_pubkey,
+			tlv_stream,
+			&secp_ctx,
+		)?
+	} else {
+		verify_recipient_metadata(
+			metadata,
+			expanded_key,
+			iv_bytes,
+			signing_pubkey,
+			tlv_stream,
+			&secp_ctx,
+		)?
+	};
+	Ok(keys.map(|k| k.secret_bytes()))
+}
+
 fn verify_metadata<T: secp256k1::Signing>(
 	metadata: &[u8], hmac: Hmac<Sha256>, signing_pubkey: PublicKey, secp_ctx: &Secp256k1<T>,
 ) -> Result<Option<Keypair>, ()> {
